@@ -500,7 +500,7 @@ def replay_split(w):
 # ----------------------------------------------------------------------------------------------
 
 fs_isfile = z3.Function("fs.isfile", S_, B_)
-fs_mtime = z3.Function("fs.mtime", S_, Obj)
+fs_mtime = z3.Function("fs.mtime", S_, I_)   # mtimes are ordered: modelled as integers (ticks)
 fs_text = z3.Function("fs.read_text", S_, S_, S_)   # (path, encoding) -> str
 fs_bytes = z3.Function("fs.read_bytes", S_, Obj)
 pjoin = z3.Function("posixpath.join", S_, SArr, I_, S_)
@@ -629,7 +629,7 @@ class FSModel:
 
     # FS-STABLE: inside get_source the mtime of an existing file is a function of the path
     def getmtime(self, I, st, args, kwargs, node):
-        r = Sym(fs_mtime(to_term(args[0], "str")), "obj")
+        r = Sym(fs_mtime(to_term(args[0], "str")), "int")
         A.call_event(st, "os.path.getmtime", args, kwargs, r, node)
         return [(st, r)]
 
